@@ -56,7 +56,7 @@ def gauss_blob(shape, centre, sigma):
 class C14(Property):
     ID = "C14"
     SESSIONS = ["s0"]
-    RUNS = {"quick": (150, 250), "thorough": (3000, 5000)}
+    RUNS = {"quick": (600, 1000), "thorough": (12000, 20000)}
     COMPONENTS = {"real": ["cryocat.cryomap / cryomotl (working tree of /repo)", "scipy.ndimage", "numpy", "emfile", "mrcfile"],
                   "stub": ["numpy.empty / empty_like as seen by cryocat.cryomap -> cryosim.alloc.AllocProxy (poisoning allocator)",
                            "OS file system -> cryosim.SimFS"]}
